@@ -13,24 +13,20 @@ log() { echo "[$ID-$VAR] $*" >> $R.log; }
 : > $R.log
 git -C $WT checkout -q -- . ; git -C $WT clean -fdq; git -C $WT checkout -q --detach $(git -C /repo rev-parse HEAD)
 if ! git -C $WT apply --check $S/patch.diff 2>>$R.log; then echo "{\"id\":\"$ID\",\"var\":\"$VAR\",\"status\":\"patch-does-not-apply\"}" > $R.json; exit 0; fi
-# demo placement
-DEMO=$(ls $S/*_test.go 2>/dev/null | head -1)
-DPATH=$(grep -oE '(x|app|types)/[A-Za-z0-9_/.-]+_test\.go' $S/demo_path.txt | head -1)
-DDIR=$(dirname "$DPATH")
+# demo placement (tools/placedemo.py reads demo_path.txt: "file -> path" lines, "file:/place:" pairs, or a single path)
+PD="python3 /verif/tools/placedemo.py $S $WT"
+DDIRS=$($PD dirs)
 demo_clean=unknown; demo_mut=unknown
-NDEMO=$(ls $S/*_test.go 2>/dev/null | wc -l)
-place_demo() { if [ "$NDEMO" -gt 1 ]; then for f in $S/*_test.go; do cp $f $WT/$DDIR/zz_seeded_$(basename $f); done; else cp $DEMO $WT/$DPATH; fi; }
-remove_demo() { rm -f $WT/$DPATH $WT/$DDIR/zz_seeded_*_test.go; }
-if [ -n "$DEMO" ] && [ -n "$DPATH" ]; then
-  mkdir -p $WT/$DDIR; place_demo
-  if (cd $WT && go test -vet=off -count=1 ./$DDIR/ >>$R.log 2>&1); then demo_clean=pass; else demo_clean=FAIL; fi
+if [ -n "$DDIRS" ]; then
+  $PD place
+  if (cd $WT && go test -vet=off -count=1 $DDIRS >>$R.log 2>&1); then demo_clean=pass; else demo_clean=FAIL; fi
 fi
 git -C $WT apply $S/patch.diff
-[ -n "$DEMO" ] && [ -n "$DPATH" ] && mkdir -p $WT/$DDIR && place_demo
+[ -n "$DDIRS" ] && $PD place
 build=ok; (cd $WT && go build ./... >>$R.log 2>&1) || build=FAIL
-if [ -n "$DEMO" ] && [ -n "$DPATH" ]; then
-  if (cd $WT && go test -vet=off -count=1 ./$DDIR/ >>$R.log 2>&1); then demo_mut=pass; else demo_mut=FAIL; fi
-  remove_demo
+if [ -n "$DDIRS" ]; then
+  if (cd $WT && go test -vet=off -count=1 $DDIRS >>$R.log 2>&1); then demo_mut=pass; else demo_mut=FAIL; fi
+  $PD remove
 fi
 suite=ok
 if [ "${SKIP_SUITE:-0}" = 1 ] && [ -s $R.suite ] && grep -q "^ok" $R.suite && ! grep -q "^FAIL" $R.suite; then suite=ok-earlier-run
